@@ -2,10 +2,10 @@ import BSModel.Base.PStr
 import BSModel.Gen.Pretty
 /-! # Pretty-printing: `Tag.decode(indent_level=…)` / `prettify()`   (property C14)
 
-Code-mirror (line numbers as of /repo commit 30770a7) of `bs4/element.py` `Tag.decode` (:2350-2457), `Tag._event_stream` (:2472-2514, as the balanced event list of
+Code-mirror (line numbers as of /repo commit 3196e3e) of `bs4/element.py` `Tag.decode` (:2374-2482), `Tag._event_stream` (:2496-2539, as the balanced event list of
 the tree — the tag-stack walk over the pre-order is tied to this list by the harness, op `ev`), `Tag._indent_string`
-(:2516-2542), `Tag._should_pretty_print` (:2606-2615), `Tag.is_empty_element` (:1825-1841), `Tag.prettify` (:2617-2633),
-`Tag.decode_contents` (:2635-2661), `PageElement._self_and` (hidden receiver skipped), and of `bs4/formatter.py`
+(:2540-2567), `Tag._should_pretty_print` (:2630-2640), `Tag.is_empty_element` (:1839-1855), `Tag.prettify` (:2641-2658),
+`Tag.decode_contents` (:2659-2686), `PageElement._self_and` (hidden receiver skipped), and of `bs4/formatter.py`
 `Formatter.__init__` (:125-136, normalisation of `indent`).
 
 Opaque pieces.  What `_format_tag(opening=True/False)` returns for a tag and what `output_ready(formatter)` returns for a
@@ -53,7 +53,7 @@ def rep (s : PStr) (n : Int) : PStr := (List.replicate n.toNat s).flatten
 
 /-! ### trees and their event stream -/
 
-/-- `Tag._should_pretty_print()` as `decode` calls it (no argument, so `indent_level = 1 is not None`), element.py:2606-2615:
+/-- `Tag._should_pretty_print()` as `decode` calls it (no argument, so `indent_level = 1 is not None`), element.py:2630-2640:
     `not self.preserve_whitespace_tags or self.name not in self.preserve_whitespace_tags`
     (`None` and the empty set are both falsy). -/
 def shouldPrettyPrint (pwt : Option (List PStr)) (name : PStr) : Bool :=
@@ -75,7 +75,7 @@ inductive Node where
   | elem (id : Nat) (opn cls : PStr) (pre : Bool) (kids : List Node)
 deriving Repr
 
-/-- `is_empty_element` (element.py:1825-1841): `len(self.contents) == 0 and self.can_be_empty_element is True` decides
+/-- `is_empty_element` (element.py:1839-1855): `len(self.contents) == 0 and self.can_be_empty_element is True` decides
     between the two tag constructors. -/
 def mkTag (id : Nat) (opn cls : PStr) (pwt : Option (List PStr)) (name : PStr) (canBeEmpty : Bool) (kids : List Node) : Node :=
   if kids.isEmpty && canBeEmpty then .void opn else .elem id opn cls (!shouldPrettyPrint pwt name) kids
@@ -95,7 +95,7 @@ def Ev.piece : Ev → PStr
   | .text p => p
 
 mutual
-/-- `_event_stream` over `self_and_descendants` of a visible element (element.py:2472-2514): start, the children's
+/-- `_event_stream` over `self_and_descendants` of a visible element (element.py:2496-2539): start, the children's
     events, end; one event for an empty-element tag or a string. -/
 def events : Node → List Ev
   | .str s => [.text s]
@@ -121,7 +121,7 @@ def FItem.parent : FItem → Nat
   | .tag p _ _ _ _ _ => p
   | .str p _ => p
 
-/-- `while tag_stack and c.parent is not tag_stack[-1]: yield END, tag_stack.pop()` (element.py:2511-2513); the stack is
+/-- `while tag_stack and c.parent is not tag_stack[-1]: yield END, tag_stack.pop()` (element.py:2522-2524); the stack is
     kept top-first, a frame is the tag's identity and its closing piece -/
 def popTo (par : Nat) : List (Nat × PStr) → List Ev × List (Nat × PStr)
   | [] => ([], [])
@@ -129,7 +129,7 @@ def popTo (par : Nat) : List (Nat × PStr) → List Ev × List (Nat × PStr)
     if i = par then ([], (i, c) :: st)
     else ((Ev.stop i c) :: (popTo par st).1, (popTo par st).2)
 
-/-- `Tag._event_stream(iterator)` (element.py:2486-2528) -/
+/-- `Tag._event_stream(iterator)` (element.py:2496-2539) -/
 def streamImpl : List (Nat × PStr) → List FItem → List Ev
   | st, [] => st.map fun f => Ev.stop f.1 f.2                    -- `while tag_stack: yield END, tag_stack.pop()`
   | st, it :: rest =>
@@ -162,7 +162,7 @@ def receiverStream (hidden contentsOnly : Bool) (t : Node) : List Ev :=
 
 /-! ### `decode` -/
 
-/-- `_indent_string` (element.py:2516-2542) -/
+/-- `_indent_string` (element.py:2540-2567) -/
 def indentString (unit s : PStr) (indentLevel : Int) (indentBefore indentAfter : Bool) : PStr :=
   let spaceBefore := if indentBefore && indentLevel != 0 then rep unit indentLevel else []
   let spaceAfter := if indentAfter then [10] else []
@@ -174,21 +174,21 @@ structure St where
   lit : Option Nat
 deriving Repr
 
-/-- one iteration of the loop in `decode` (element.py:2394-2456): the piece appended and the next state -/
+/-- one iteration of the loop in `decode` (element.py:2418-2480): the piece appended and the next state -/
 def step (unit : PStr) (st : St) (ev : Ev) : PStr × St :=
-  -- :2395-2405  the piece; an end event decrements the level first
+  -- :2419-2429  the piece; an end event decrements the level first
   let piece := ev.piece
   let lvl : Option Int := match ev with
     | .stop _ _ => st.lvl.map (· - 1)
     | _ => st.lvl
-  -- :2416-2419  `if string_literal_tag:` (a Tag is always truthy)
+  -- :2440-2443  `if string_literal_tag:` (a Tag is always truthy)
   let dflt : Bool := st.lit.isNone
-  -- :2424-2442  entering / leaving string literal mode
+  -- :2448-2466  entering / leaving string literal mode
   let (before, after, lit) : Bool × Bool × Option Nat := match ev with
     | .start i _ pre => if st.lit.isNone && pre then (true, false, some i) else (dflt, dflt, st.lit)
     | .stop i _ => if st.lit == some i then (false, true, none) else (dflt, dflt, st.lit)
     | _ => (dflt, dflt, st.lit)
-  -- :2446-2456
+  -- :2470-2480
   match lvl with
   | none => (piece, ⟨none, lit⟩)
   | some l =>
@@ -212,7 +212,7 @@ inductive LevelArg where
   | int (n : Int)
 deriving Repr, DecidableEq
 
-/-- element.py:2383-2384 `if indent_level is True: indent_level = 0` (`False` is the int 0 already) -/
+/-- element.py:2407-2408 `if indent_level is True: indent_level = 0` (`False` is the int 0 already) -/
 def levelOf : LevelArg → Option Int
   | .none => Option.none
   | .true => some 0
@@ -229,7 +229,7 @@ def pieces (unit : PStr) : St → List Ev → List PStr
 def decodeImpl (unit : PStr) (indentLevel : Option Int) (evs : List Ev) : PStr :=
   (pieces unit ⟨indentLevel, none⟩ evs).flatten
 
-/-- `Tag.prettify(formatter=…)` with `encoding=None` (element.py:2630-2631) -/
+/-- `Tag.prettify(formatter=…)` with `encoding=None` (element.py:2654-2655) -/
 def prettifyImpl (unit : PStr) (hidden : Bool) (t : Node) : PStr :=
   decodeImpl unit (some 0) (receiverStream hidden false t)
 
@@ -307,11 +307,11 @@ def dropWs (s : PStr) : PStr := s.filter (fun c => !isSpace c)
 /-! ## The layer above the pieces: receivers, encodings, the bytes flavour, the XML declaration
 
 Here the pieces are no longer inputs but computed as the code computes them, from what the tag / string objects carry:
-`Tag._format_tag` (element.py:2560-2620; the attribute string — `formatter.attributes`, `attribute_value`,
+`Tag._format_tag` (element.py:2568-2629; the attribute string — `formatter.attributes`, `attribute_value`,
 `quoted_attribute_value`, charset substitution — stays opaque, given per `eventual_encoding`), `NavigableString.output_ready` /
-`PreformattedString.output_ready` (:1347-1356, :1450-1466; `PREFIX + body + SUFFIX`, the substituted body opaque), and the
+`PreformattedString.output_ready` (:1347-1355, :1450-1466; `PREFIX + body + SUFFIX`, the substituted body opaque), and the
 entry points `Tag.decode`/`decode_contents`/`encode`/`encode_contents`/`prettify` (element.py) and `BeautifulSoup.decode`
-(bs4/__init__.py:1080-1146: XML declaration, deprecated bool `indent_level`). The codec step `str.encode(encoding,
+(bs4/__init__.py:1080-1150: XML declaration, deprecated bool `indent_level`). The codec step `str.encode(encoding,
 "xmlcharrefreplace")` is not modelled: a bytes result is represented by the encoding and the text handed to the codec. -/
 
 /-- what a tag object carries as far as rendering its own two pieces is concerned -/
@@ -348,7 +348,7 @@ def attrString (i : TagInfo) (enc : Option PStr) : PStr :=
   | some s => s
   | none => i.attrDefault
 
-/-- `Tag._format_tag(eventual_encoding, formatter, opening)` (element.py:2560-2620) -/
+/-- `Tag._format_tag(eventual_encoding, formatter, opening)` (element.py:2568-2629) -/
 def formatTag (c : RCfg) (i : TagInfo) (isEmptyElement opening : Bool) : PStr :=
   if i.hidden then []
   else
@@ -382,7 +382,7 @@ def RNode.soupXml : RNode → Option Bool
   | .str _ _ _ => none
 
 /-- `Tag.decode(indent_level, eventual_encoding, formatter)` (`contentsOnly = false`) and
-    `Tag.decode_contents(indent_level, eventual_encoding, formatter)` (`contentsOnly = true`, element.py:2650-2676);
+    `Tag.decode_contents(indent_level, eventual_encoding, formatter)` (`contentsOnly = true`, element.py:2659-2686);
     `unit` = `formatter.indent`, `vcp` = `formatter.void_element_close_prefix or ""` -/
 def tagDecode (unit vcp : PStr) (lvl : LevelArg) (enc : Option PStr) (contentsOnly : Bool) (r : RNode) : PStr :=
   decodeImpl unit (levelOf lvl) (receiverStream r.hidden contentsOnly (resolve ⟨enc, vcp⟩ r))
@@ -399,7 +399,7 @@ def xmlDecl (isXml : Bool) (enc : Option PStr) : PStr :=
     ofS "<?xml version=\"1.0\"" ++ encodingPart ++ ofS "?>\n"
   else []
 
-/-- bs4/__init__.py:1127-1132: a bool first argument keeps its pre-4.13 meaning (`True` → 0, `False` → None, with a
+/-- bs4/__init__.py:1128-1133: a bool first argument keeps its pre-4.13 meaning (`True` → 0, `False` → None, with a
     DeprecationWarning) -/
 def soupLevel : LevelArg → LevelArg
   | .true => .int 0
@@ -423,12 +423,12 @@ inductive Out where
   | bytes (enc : PStr) (text : PStr)
 deriving Repr, DecidableEq
 
-/-- `Tag.encode(encoding, indent_level, formatter)` (element.py:2334-2363): `self.decode(indent_level, encoding, formatter)`,
+/-- `Tag.encode(encoding, indent_level, formatter)` (element.py:2344-2373): `self.decode(indent_level, encoding, formatter)`,
     then the codec -/
 def encodeImpl (unit vcp : PStr) (encoding : PStr) (lvl : LevelArg) (r : RNode) : Out :=
   .bytes encoding (recvDecode unit vcp lvl (some encoding) false r)
 
-/-- `Tag.encode_contents(indent_level, encoding, formatter)` (element.py:2678-2696) -/
+/-- `Tag.encode_contents(indent_level, encoding, formatter)` (element.py:2687-2706) -/
 def encodeContentsImpl (unit vcp : PStr) (lvl : LevelArg) (encoding : PStr) (r : RNode) : Out :=
   .bytes encoding (recvDecode unit vcp lvl (some encoding) true r)
 
@@ -437,7 +437,7 @@ def encodeContentsImpl (unit vcp : PStr) (lvl : LevelArg) (encoding : PStr) (r :
 def renderContentsImpl (unit vcp : PStr) (encoding : PStr) (prettyPrint : Bool) (indentLevel : LevelArg) (r : RNode) : Out :=
   encodeContentsImpl unit vcp (if prettyPrint then indentLevel else .none) encoding r
 
-/-- `Tag.prettify(encoding, formatter)` (element.py:2627-2648): without an encoding `self.decode(indent_level=0,
+/-- `Tag.prettify(encoding, formatter)` (element.py:2641-2658): without an encoding `self.decode(indent_level=0,
     formatter=formatter)` — `eventual_encoding` at the default of the `decode` that is reached — else `self.encode(encoding=
     encoding, indent_level=0, formatter=formatter)` -/
 def prettifyRaw (unit vcp : PStr) (encoding : Option PStr) (r : RNode) : Out :=
